@@ -72,16 +72,11 @@ class ReedSolomonCodeEncoder(SystematicLinearBlockCodeEncoder):
         generator_matrix = self._create_generator_matrix(dtype=dtype)
 
         # Extract the parity submatrix
-        if information_set == "left":
-            parity_submatrix = generator_matrix[:, dimension:]
-        else:
-            parity_submatrix = generator_matrix[:, :redundancy]
+        # _create_generator_matrix returns [I_k | P]: the parity part is the last n-k columns for every information set
+        parity_submatrix = generator_matrix[:, dimension:]
 
         # Initialize the parent class with the parity submatrix
         super().__init__(parity_submatrix=parity_submatrix, information_set=information_set, dtype=dtype, **kwargs)
-
-        # Store the full generator matrix as a buffer
-        self.register_buffer("generator_matrix", generator_matrix)
 
     def _compute_generator_polynomial(self, delta: int) -> BinaryPolynomial:
         """Compute the generator polynomial g(x) = (x-α)*(x-α²)*...*(x-α^(δ-1))."""
